@@ -174,6 +174,56 @@ def run(tier: str, seed: int) -> int:
                     res.spec_failures.append({"space": sp, "code": code, "accepted": ok, "what": "code acceptance disagrees with the key space"})
                 elif ok and names.get(r) != code:
                     res.spec_failures.append({"space": sp, "code": code, "rendered": r, "what": "code rendered as the wrong name"})
+    # --- every command, parameter and text key once more *in context*: inside a whole envelope, created and parsed through the real path
+    def in_context(kind_label, name, manifest_patch, envelope_patch=None, locate=None):
+        desc = {"SUIT_Envelope_Tagged": {"suit-authentication-wrapper": {"SuitDigest": {"suit-digest-algorithm-id": "cose-alg-sha-256"}},
+                                         "suit-manifest": {"suit-manifest-version": 1, "suit-manifest-sequence-number": 1, **manifest_patch}, **(envelope_patch or {})}}
+        impl = suitio.impl_create(__import__("copy").deepcopy(desc))
+        model = suitio.model_create(drv, desc, {})
+        res.case([kind_label, name, "context"])
+        res.count("context:" + kind_label + ":" + ("ok" if "ok" in impl else impl["err"]))
+        if impl != model and not suitio.same_err(impl, model):
+            res.mismatches.append({"op": "suit.create", "context": kind_label, "name": name, "impl": str(impl)[:300], "model": str(model)[:300]})
+        if "ok" not in impl:
+            res.spec_failures.append({"context": kind_label, "name": name, "impl": impl, "what": "a registered name is rejected when used inside an envelope"})
+            return
+        back = suitio.impl_parse(bytes.fromhex(impl["ok"]))
+        if "ok" not in back:
+            res.spec_failures.append({"context": kind_label, "name": name, "envelope": impl["ok"][:400], "impl": back,
+                                      "what": "the envelope the tool created with this name cannot be parsed back"})
+            return
+        found = locate(back["ok"]["SUIT_Envelope_Tagged"])
+        if found != name:
+            res.spec_failures.append({"context": kind_label, "name": name, "rendered": str(found)[:200], "what": "the name does not come back as itself from a parsed envelope"})
+
+    for sp in ("SuitCondition", "SuitDirective"):
+        if sp in spaces:
+            for n in spaces[sp][2]:
+                child = spaces[sp][3].get(n)
+                arg = sample_for(descs, order, child) if child is not None else 0
+                # the command alone, after another command, and nested in a run-sequence (the paths a real manifest takes)
+                in_context(sp, n, {"suit-validate": [{n: arg}]}, locate=lambda e: next(iter(e["suit-manifest"]["suit-validate"][0]), None))
+                in_context(sp + ":second", n, {"suit-install": [{"suit-directive-set-component-index": 0}, {n: arg}]},
+                           locate=lambda e: next(iter(e["suit-manifest"]["suit-install"][1]), None))
+    if "SuitParameters" in spaces:
+        for n in spaces["SuitParameters"][2]:
+            child = spaces["SuitParameters"][3].get(n)
+            arg = sample_for(descs, order, child) if child is not None else 0
+            in_context("SuitParameters", n, {"suit-validate": [{"suit-directive-override-parameters": {n: arg}}]},
+                       locate=lambda e: next(iter(e["suit-manifest"]["suit-validate"][0]["suit-directive-override-parameters"]), None))
+    for sp in ("SuitTextLMap", "SuitTextKeys", "SuitText"):
+        pass
+    text_keys = [n for sp, es in registry.items() for n in es if n.startswith("suit-text-") and not n.startswith("suit-text-vendor") and not n.startswith("suit-text-model")
+                 and not n.startswith("suit-text-component")]
+    for n in sorted(set(text_keys)):
+        for value in ("some text", "", "x"):
+            in_context("text-key:" + ("empty" if value == "" else "text"), n, {"suit-text": {"suit-digest-algorithm-id": "cose-alg-sha-256"}},
+                       envelope_patch={"suit-text": {"en": {n: value}}}, locate=lambda e: next(iter(e["suit-text"]["en"]), None))
+    comp_text = [n for sp, es in registry.items() for n in es if n.startswith("suit-text-vendor") or n.startswith("suit-text-model") or n.startswith("suit-text-component")]
+    for n in sorted(set(comp_text)):
+        for value in ("some text", ""):
+            in_context("component-text-key", n, {"suit-common": {"suit-components": [["M", 1]]}, "suit-text": {"suit-digest-algorithm-id": "cose-alg-sha-256"}},
+                       envelope_patch={"suit-text": {"en": {'["M", 1]': {n: value}}}}, locate=lambda e: next(iter(e["suit-text"]["en"]['["M", 1]']), None))
     # tags
     for cname, t in reg["tags"]:
         cls = next((c for c in order if c.__name__ == cname), None)
